@@ -110,3 +110,143 @@ def rule_E13(run: Run, prog: Program, max_len: int = 3) -> int:
         elif not unsupported:
             run.add("E13", fn.short, cl, PROVEN, f"all {total_by_class[cl]} index tuples get numpy's axis mapping", loc)
     return n
+
+
+# ---------------------------------------------------------------------------------------------- E15: index types follow the axes
+import itertools  # noqa: E402
+
+
+def _tensor(tcls, f: int, cov: list[int], con: list[int], name: str):
+    rank = f + len(cov) + len(con)
+    return absint.Obj(__cls__=tcls, array=absint.Arr(rank, "f", tuple((name, i) for i in range(rank))),
+                      _covariant_indices=set(cov), _contravariant_indices=set(con))
+
+
+def _layouts(max_rank: int = 4):
+    """(free, covariant positions, contravariant positions) for every typing of up to max_rank axes with at most two collection axes in front"""
+    for f in (0, 1, 2):
+        for k in range(0, max_rank - f + 1):
+            if f + k == 0:
+                continue
+            for types in itertools.product("cd", repeat=k):
+                cov = [f + i for i, t in enumerate(types) if t == "c"]
+                con = [f + i for i, t in enumerate(types) if t == "d"]
+                yield f, cov, con
+
+
+def _type_of(obj, axis: int) -> str:
+    if axis in obj.__dict__["_covariant_indices"]:
+        return "covariant"
+    if axis in obj.__dict__["_contravariant_indices"]:
+        return "contravariant"
+    return "collection"
+
+
+def _judge(result, sources: dict, what: str) -> str | None:
+    """every axis of the result carries the type of the source axis it comes from; new axes are collection axes"""
+    if isinstance(result, absint.Scalar):
+        return None  # every axis indexed away: numpy returns a number
+    if not isinstance(result, absint.Obj):
+        return f"{what}: the result is not a tensor object"
+    arr = result.__dict__.get("array")
+    if not isinstance(arr, absint.Arr) or arr.prov is None:
+        return f"{what}: the array of the result was not tracked"
+    cov, con = result.__dict__.get("_covariant_indices", set()), result.__dict__.get("_contravariant_indices", set())
+    if (set(cov) | set(con)) - set(range(arr.ndim)) or set(cov) & set(con):
+        return f"{what}: index sets {sorted(cov)} / {sorted(con)} do not fit an array with {arr.ndim} axes"
+    for i, lab in enumerate(arr.prov):
+        got = "covariant" if i in cov else ("contravariant" if i in con else "collection")
+        want = "collection" if lab == "new" or lab is None else _type_of(sources[lab[0]], lab[1])
+        if got != want:
+            origin = "a new axis" if lab == "new" else f"axis {lab[1]} of {lab[0]} ({want})"
+            return f"{what}: axis {i} of the result is {origin} but is typed {got}"
+    return None
+
+
+def rule_E15(run: Run, prog: Program) -> int:
+    run.rule(
+        "E15",
+        "index types follow the axes: transpose, T, tensor_product, expand_dims, copy and t[index] are interpreted (absint) on abstract tensors "
+        "whose array carries the provenance of every axis through numpy's transfer functions (transpose, tensordot, expand_dims, indexing); in "
+        "the result every axis has the type - covariant, contravariant, collection - of the source axis it is, and new axes are collection axes. "
+        "Exhaustive over all typings of up to four axes, all permutations, every insertion position and every index tuple of up to two elements",
+    )
+    tcls = prog.cls("Tensor")
+    coll = prog.find_cls("TensorCollection")
+    n = 0
+    wrong: dict[str, list[str]] = {}
+    unsupported: dict[str, dict[str, int]] = {}
+    counts: dict[str, int] = {}
+
+    def attempt(op: str, thunk, sources: dict, what: str, expect_error: bool = False):
+        nonlocal n
+        n += 1
+        counts[op] = counts.get(op, 0) + 1
+        try:
+            res = thunk()
+        except absint.Unsupported as e:
+            unsupported.setdefault(op, {})
+            unsupported[op][str(e)] = unsupported[op].get(str(e), 0) + 1
+            return
+        except absint.Raised as e:
+            if not expect_error:
+                wrong.setdefault(op, []).append(f"{what}: raises {e.name}")
+            return
+        if expect_error:
+            return
+        diff = _judge(res, sources, what)
+        if diff:
+            wrong.setdefault(op, []).append(diff)
+
+    def interp():
+        return absint.Interp(prog)
+
+    fn_t = prog.lookup(tcls, "transpose")
+    fn_tp = prog.lookup(tcls, "tensor_product")
+    fn_copy = prog.lookup(tcls, "copy")
+    fn_get = prog.lookup(tcls, "__getitem__")
+    fn_exp = prog.lookup(coll, "expand_dims") if coll is not None else None
+    for f, cov, con in _layouts(4):
+        t = _tensor(tcls, f, cov, con, "t")
+        rank = f + len(cov) + len(con)
+        desc = f"t with {f} collection axes, covariant {cov}, contravariant {con}"
+        if fn_t is not None:
+            # all permutations that keep the collection axes in place, plus the default
+            tail = list(range(f, rank))
+            for p in itertools.permutations(tail):
+                perm = list(range(f)) + list(p)
+                attempt("transpose", lambda perm=perm: interp().call(fn_t, [t, perm]), {"t": t}, f"{desc}: transpose({perm})")
+            attempt("transpose", lambda: interp().call(fn_t, [t]), {"t": t}, f"{desc}: transpose()")
+        if fn_copy is not None:
+            attempt("copy", lambda: interp().call(fn_copy, [t]), {"t": t}, f"{desc}: copy()")
+        if fn_exp is not None and coll is not None:
+            tc = absint.Obj(**dict(t.__dict__, __cls__=coll))
+            for axis in range(0, f + 1):
+                attempt("expand_dims", lambda axis=axis: interp().call(fn_exp, [tc, axis]), {"t": tc}, f"{desc}: expand_dims({axis})")
+        if fn_get is not None and rank <= 3:
+            for r_, kinds, _want in indexspec.domain(max_len=2, ranks=(rank,)):
+                idx = abstract_index(kinds)
+                attempt("__getitem__", lambda idx=idx: interp().call(fn_get, [t, idx]), {"t": t}, f"{desc}: {show(kinds)}")
+    if fn_tp is not None:
+        singles = [(cov, con) for f, cov, con in _layouts(2) if f == 0]
+        for (ca, da), (cb, db) in itertools.product(singles, repeat=2):
+            a, b = _tensor(tcls, 0, ca, da, "a"), _tensor(tcls, 0, cb, db, "b")
+            attempt("tensor_product", lambda a=a, b=b: interp().call(fn_tp, [a, b]), {"a": a, "b": b},
+                    f"a (covariant {ca}, contravariant {da}) x b (covariant {cb}, contravariant {db})")
+    run.stats["index_type_cases"] = counts
+    loc_of = {"transpose": fn_t, "tensor_product": fn_tp, "copy": fn_copy, "__getitem__": fn_get, "expand_dims": fn_exp}
+    for op in sorted(counts):
+        fn = loc_of.get(op)
+        loc = fn.loc if fn is not None else ""
+        name = fn.short if fn is not None else op
+        if op in wrong:
+            bad = wrong[op]
+            run.add("E15", name, "index types of the result", VIOLATION,
+                    f"{len(bad)} of {counts[op]} cases give an axis the type of another axis, e.g. " + "; ".join(bad[:3]), loc, {"failing": bad[:30], "count": len(bad)})
+        elif op in unsupported:
+            worst = sorted(unsupported[op].items(), key=lambda kv: -kv[1])[:2]
+            run.add("E15", name, "index types of the result", UNDECIDED,
+                    f"{sum(unsupported[op].values())} of {counts[op]} cases could not be interpreted ({'; '.join(f'{k} x{v}' for k, v in worst)})", loc)
+        else:
+            run.add("E15", name, "index types of the result", PROVEN, f"all {counts[op]} cases: every axis keeps the type of the axis it comes from", loc)
+    return n
